@@ -1902,6 +1902,18 @@ class Dynamo0p3RedundantComputationTrans(LoopTrans):
         check_intergrid(node)
         const = LFRicConstants()
 
+        # A loop containing a reduction must not be computed redundantly:
+        # the local sum would include annexed and halo dofs, which are
+        # also summed by the partitions that own them, so the subsequent
+        # global sum would count them more than once.
+        for call in node.kernels():
+            if call.is_reduction:
+                raise TransformationError(
+                    f"In the Dynamo0p3RedundantComputation transformation "
+                    f"apply method the loop contains kernel '{call.name}' "
+                    f"which performs a reduction. Redundant computation is "
+                    f"not supported for loops containing a reduction.")
+
         if not options:
             options = {}
         depth = options.get("depth")
